@@ -644,11 +644,18 @@ class Interp:
             # module-level constants and simple aliases are evaluated in a scratch frame of that module
             if isinstance(gnode, (ast.Constant, ast.Name, ast.Attribute, ast.List, ast.Tuple, ast.Dict, ast.Set)) \
                     or (isinstance(gnode, ast.UnaryOp) and isinstance(gnode.operand, ast.Constant)) or self._constant_expression(gnode, mod):
+                if isinstance(gnode, (ast.Dict, ast.List, ast.Set)) and dotted in self.state.globals_objs:
+                    return self.state.globals_objs[dotted]
                 self.state.frames.append(Frame(None, mod, None, fid=self.state.fresh("fid")))
                 try:
-                    return self.eval(gnode)
+                    v_ = self.eval(gnode)
                 finally:
                     self.state.frames.pop()
+                if isinstance(gnode, (ast.Dict, ast.List, ast.Set)):
+                    # one object per path (a table read twice is the same table; the memo of a pure function starts empty
+                    # and keeps what this path stores in it)
+                    self.state.globals_objs[dotted] = v_
+                return v_
             if isinstance(gnode, ast.Call) and isinstance(gnode.func, ast.Name) and gnode.func.id == "object" and not gnode.args and not gnode.keywords \
                     and "object" not in self.prog.modules[mod].globals_ and not self._global_rebound(mod, attr):
                 return Sym(("sentinel", dotted))
@@ -1059,6 +1066,11 @@ class Interp:
             if isinstance(y, Const) and isinstance(y.value, bool) and op == "Eq" and isinstance(x, FormulaV):
                 # z3: BoolRef == False builds the formula ¬x ; handled by the caller (formula context)
                 return ("formula", x.f if y.value else F.mk_not(x.f), x.backend)
+        # --- an object of the heap is never the constant True / False / None (nor equal to it)
+        for x, y in ((a, b), (b, a)):
+            if op in ("Is", "Eq") and isinstance(x, Ref) and isinstance(y, Const) and (y.value is None or isinstance(y.value, bool)) \
+                    and isinstance(self.deref(x), (HList, HDict, HObj, HWcnf, HSolver)):
+                return PFALSE
         # --- references: identity / emptiness
         if isinstance(a, Ref) and isinstance(b, Ref):
             oa, ob = self.deref(a), self.deref(b)
@@ -1160,6 +1172,12 @@ class Interp:
                     def named(d):
                         return isinstance(d, tuple) and len(d) == 3 and d[0] == "elem" and isinstance(d[1], tuple) and d[1][:1] == ("obj",)
                     if named(desc(item)) and all((isinstance(k, tuple) and k[:1] == ("d",) and named(k[1])) or not isinstance(k, tuple) for k in o.entries):
+                        return PFALSE
+                    # built names with constant beginnings neither of which continues the other are different strings
+                    def lead(d):
+                        return d[1][0] if isinstance(d, tuple) and d[:1] == ("name",) and len(d) > 1 and isinstance(d[1], tuple) and d[1] and isinstance(d[1][0], str) else None
+                    li = lead(desc(item))
+                    if li is not None and o.entries and all(isinstance(k, tuple) and k[:1] == ("d",) and lead(k[1]) is not None and not lead(k[1]).startswith(li) and not li.startswith(lead(k[1])) for k in o.entries):
                         return PFALSE
                 return ("in", desc(item), ("dict", container.oid))
             if isinstance(o, HList):
@@ -1534,9 +1552,19 @@ class Interp:
                 and all(isinstance(k_, tuple) and len(k_) == len(key.items) and all(isinstance(b_, bool) for b_ in k_) for k_ in o.entries):
             # a table keyed by tuples of truth values, looked up with symbolic Booleans: whichever they are
             key = TupleV(tuple(Const(bool(self.truth(x))) if isinstance(x, (PredV, Sym)) else x for x in key.items))
+        if getattr(o, "default_factory", None) is not None and isinstance(key, (PredV,)) and not o.each and not o.sym and set(o.entries) <= {True, False}:
+            key = Const(bool(self.truth(key)))  # (a defaultdict keyed by a verdict: whichever it is)
         ck = self.dict_key(key)
         if ck is not None and ck[1] in o.entries:
             return o.entries[ck[1]]
+        if getattr(o, "default_factory", None) is not None and default is None and ck is not None and not o.each and not o.sym:
+            # collections.defaultdict: a missing key gets the factory's value, which is stored and handed out
+            v_new = self.call(o.default_factory, [], {}, node)
+            o.entries[ck[1]] = v_new
+            self.log("dict.set", node, obj=ref, key=key, value=v_new)
+            return v_new
+        if getattr(o, "default_factory", None) is not None and default is None and ck is None and ("d", desc(key)) not in o.entries:
+            self.err(node, "a defaultdict is looked up under a computed key: whether the entry exists (or is created now) is not known")
         # an entry stored earlier on this path under the same symbolic key overrides the generic content
         if ck is None and ("d", desc(key)) in o.entries:
             return o.entries[("d", desc(key))]
@@ -2131,6 +2159,15 @@ class Interp:
         elif isinstance(lam, ast.FunctionDef):
             self.err(node, f"the nested function {lam.name} is called after the call that defined it has returned")
         hf = self.state.frames[home]
+        if isinstance(lam, ast.FunctionDef) and any(isinstance(n_, (ast.Yield, ast.YieldFrom)) for n_ in self._own_nodes(lam)):
+            # a nested generator function: a generator object over the frame it was written in, run where it is consumed
+            cache = self.__dict__.setdefault("_nested_fi", {})
+            key = (id(lam), hf.fid)
+            if key not in cache:
+                nfi = FunctionInfo(f"{hf.func.qualname if hf.func else '?'}.<locals>.{lam.name}", hf.module, None, lam, ())
+                nfi._closure = (home, hf.fid)
+                cache[key] = nfi
+            return GenV(cache[key], tuple(args), tuple(sorted(kwargs.items(), key=lambda kv: kv[0])))
         fr = Frame(hf.func, hf.module, hf.cls, fid=self.state.fresh("fid"), closure=home, is_comp=True)
         self.bind_params(lam.args, args, kwargs, fr, node, lam)
         self.state.frames.append(fr)
@@ -2239,7 +2276,13 @@ class Interp:
                 self.log("call.opaque", node, func=fi.qualname, args=tuple(args), kwargs=dict(kwargs))
                 return Sym(("call", fi.qualname, tuple(desc(a) for a in args if not isinstance(a, tuple) or True)))
         self.stats["resolved_calls"] += 1
-        fr = Frame(fi, fi.module, fi.cls, fid=self.state.fresh("fid"))
+        clo = getattr(fi, "_closure", None)
+        if clo is not None:
+            if not (0 <= clo[0] < len(self.state.frames) and self.state.frames[clo[0]].fid == clo[1]):
+                self.err(node, f"the nested generator {fi.qualname} runs after the call that defined it has returned")
+            fr = Frame(fi, fi.module, fi.cls, fid=self.state.fresh("fid"), closure=clo[0])
+        else:
+            fr = Frame(fi, fi.module, fi.cls, fid=self.state.fresh("fid"))
         fr.on_yield = on_yield
         self.bind_params(fi.node.args, args, kwargs, fr, node, fi.node)
         self.state.frames.append(fr)
@@ -2636,6 +2679,24 @@ class Interp:
                 self.state.frames.pop()
             return Const(None)
 
+        def on_extend(segs):
+            # yield from a sequence of unknown length: the loop body runs for its members as it would in a for statement over it
+            if gen.wrap:
+                self.err(node, "yield from a sequence of unknown length inside enumerate()")
+            self.state.frames.append(caller)
+            try:
+                def body():
+                    self.exec_block(node.body)
+                if self.run_segs(node.target, list(segs), body, node):
+                    pending.append(BreakSig())
+                    raise _GenStop()
+            except (ReturnSig, RaiseSig) as sig:
+                pending.append(sig)
+                raise _GenStop()
+            finally:
+                self.state.frames.pop()
+
+        on_yield.extend = on_extend
         try:
             self.call_function(gen.fi, list(gen.args), dict(gen.kwargs), node.iter, force_inline=True, on_yield=on_yield)
         except _GenStop:
@@ -2954,6 +3015,16 @@ class Interp:
                 return True
         return False
 
+    @staticmethod
+    def _own_nodes(fnode):
+        """nodes of a function body, not descending into nested definitions"""
+        todo = list(fnode.body)
+        while todo:
+            n = todo.pop()
+            yield n
+            if not isinstance(n, (ast.FunctionDef, ast.AsyncFunctionDef, ast.Lambda, ast.ClassDef)):
+                todo.extend(ast.iter_child_nodes(n))
+
     def exec_FunctionDef(self, node):
         # a nested function: a closure over the frame it is written in (called like a lambda with statements); generators,
         # decorated ones and ones that rebind outer names stay opaque callables
@@ -2961,7 +3032,7 @@ class Interp:
         todo = list(node.body)
         while todo and plain:
             n = todo.pop()
-            if isinstance(n, (ast.Yield, ast.YieldFrom, ast.Nonlocal, ast.Global, ast.Await)):
+            if isinstance(n, (ast.Nonlocal, ast.Global, ast.Await)):
                 plain = False
             elif not isinstance(n, (ast.FunctionDef, ast.AsyncFunctionDef, ast.Lambda, ast.ClassDef)):
                 todo.extend(ast.iter_child_nodes(n))
